@@ -46,6 +46,8 @@ func (c09) Gates(tier string, m map[string]int64) []rt.Gate {
 		rt.GateMin("no-GROUP-BY aggregates", m, "no_group_by", 300),
 		rt.GateMin("zero-row aggregates", m, "zero_rows", 30),
 		rt.GateMin("arithmetic around aggregates", m, "arith_around", 300),
+		rt.GateMin("aggregate arguments through a GROUP BY alias", m, "alias_aggregate_arg", 100),
+		rt.GateMin("aggregates over raw numeric text with mixed integers and floats", m, "implicit_text_class", 200),
 	}
 	for _, f := range []string{"count", "sum", "min", "max", "avg", "group_concat", "json_arrayagg"} {
 		gs = append(gs, rt.GateMin("aggregate "+f+" judged", m, "aggr:"+f, 100))
@@ -84,6 +86,16 @@ func (k c09) Run(c *rt.Ctx) {
 	r := c.R
 	floats := r.Chance(1, 3)
 	pairs := c09Store(r, floats)
+	// implicit class: aggregates over the raw numeric text of `value`, integers
+	// and (never integral) floats mixed in one group
+	implicit := r.Chance(1, 6)
+	if implicit {
+		mixed := []string{"0", "1", "2", "3", "5", "7", "-1", "-4", "12", "0.5", "1.5", "-0.25", "2.75", "-2.5", "7.25", "2.25", "-0.5"}
+		for i := range pairs {
+			pairs[i].V = mixed[r.Intn(len(mixed))]
+		}
+		c.Rec.Inc("implicit_text_class")
+	}
 	part := func(i int64) *gen.Node { return gen.IndexI(gen.Call("split", gen.Key(), gen.Str("|")), i) }
 	gpool := []*gen.Node{part(0), part(1), gen.Value(), gen.Call("upper", part(0)), gen.Call("strlen", part(1)), gen.Call("int", part(0)), gen.Call("int", part(1)),
 		gen.Bin("+", part(0), part(1)), gen.Bin(">", gen.Call("strlen", part(0)), gen.Int(1)), gen.Call("strlen", gen.Value())}
@@ -127,6 +139,26 @@ func (k c09) Run(c *rt.Ctx) {
 				return gen.Bin("*", gen.Call("int", gen.Value()), gen.Int(3))
 			}
 			return gen.Bin("-", gen.Call("int", gen.Value()), gen.Call("strlen", part(0)))
+		}
+	}
+	if implicit {
+		numArg = func() *gen.Node { return gen.Value() }
+	}
+	// aggregate arguments through the alias of a numeric GROUP BY field
+	var aliasArgs []*gen.Node
+	for i, g := range groups {
+		if g.T == gen.TN && !implicit {
+			aliasArgs = append(aliasArgs, gen.Ref(fmt.Sprintf("g%d", i), g))
+		}
+	}
+	if len(aliasArgs) > 0 && r.Chance(1, 2) {
+		base := numArg
+		numArg = func() *gen.Node {
+			if r.Bool() {
+				c.Rec.Inc("alias_aggregate_arg")
+				return aliasArgs[r.Intn(len(aliasArgs))]
+			}
+			return base()
 		}
 	}
 	textArg := func() *gen.Node {
@@ -192,7 +224,7 @@ func (k c09) Run(c *rt.Ctx) {
 	arith := false
 	for i := 0; i < len(aggs); i++ {
 		a := aggs[i]
-		plain.Fields = append(plain.Fields, gen.Field{E: a.arg})
+		plain.Fields = append(plain.Fields, gen.Field{E: a.arg.Expand()})
 		tree := mk(a)
 		used := []int{i}
 		numeric := a.name != "group_concat" && a.name != "json_arrayagg"
@@ -206,7 +238,7 @@ func (k c09) Run(c *rt.Ctx) {
 			default:
 				if i+1 < len(aggs) && aggs[i+1].name != "group_concat" && aggs[i+1].name != "json_arrayagg" {
 					tree = gen.Bin("-", tree, mk(aggs[i+1]))
-					plain.Fields = append(plain.Fields, gen.Field{E: aggs[i+1].arg})
+					plain.Fields = append(plain.Fields, gen.Field{E: aggs[i+1].arg.Expand()})
 					used = append(used, i+1)
 					i++
 				}
@@ -273,6 +305,10 @@ func (k c09) Run(c *rt.Ctx) {
 		return
 	}
 	if ao.Status() != "ok" {
+		if implicit {
+			rec.NotJudged("aggregate over raw numeric text refused (implicit conversion is not documented)")
+			return
+		}
 		c.Violation("aggregate-statement-fails", cluster(firstWords(ao.ErrText())), func() rt.D { return rt.D{"aggregate": q, "store": storeBrief(pairs), "outcome": outcomeBrief(ao)} })
 		return
 	}
@@ -428,6 +464,15 @@ func c09Num(n string) (refeval.Val, bool) {
 	case 'F':
 		v, err := strconv.ParseFloat(n[1:], 64)
 		return refeval.FloatV(v), err == nil
+	case 'T':
+		// raw numeric text (implicit class)
+		t := c09Render(n)
+		if v, ok := refeval.PlainInt(t); ok {
+			return refeval.IntV(v), true
+		}
+		if v, ok := refeval.PlainFloat(t); ok {
+			return refeval.FloatV(v), true
+		}
 	}
 	return refeval.Val{}, false
 }
@@ -474,7 +519,38 @@ func c09Fold(a c09Agg, rows [][]string, col int) (refeval.Val, bool) {
 		}
 		nums = append(nums, v)
 	}
-	if len(nums) == 0 || (!allInt && !allFloat) {
+	if len(nums) == 0 {
+		return refeval.Val{}, false
+	}
+	if !allInt && !allFloat {
+		// mixed integers and floats (implicit class): exact mathematics, the
+		// result is a float as soon as one value is; min/max keep the kind of
+		// the extreme value (the pool has no integral floats, so no cross-kind ties)
+		f := func(v refeval.Val) float64 {
+			if v.K == refeval.VInt {
+				return float64(v.I)
+			}
+			return v.F
+		}
+		switch a.name {
+		case "sum", "avg":
+			s := 0.0
+			for _, v := range nums {
+				s += f(v)
+			}
+			if a.name == "avg" {
+				return refeval.FloatV(s / float64(len(nums))), true
+			}
+			return refeval.FloatV(s), true
+		case "min", "max":
+			best := nums[0]
+			for _, v := range nums[1:] {
+				if (a.name == "min" && f(v) < f(best)) || (a.name == "max" && f(v) > f(best)) {
+					best = v
+				}
+			}
+			return best, true
+		}
 		return refeval.Val{}, false
 	}
 	switch a.name {
